@@ -365,3 +365,149 @@ Proof.
       * inversion E; subst. left; auto.
   - inversion H; subst p. repeat split; auto.
 Qed.
+
+(* ------------------------------------------------------------------ dropping the port drops only the port *)
+Lemma no_c_app2 sep a b : no_c sep (a ++ b) = no_c sep a && no_c sep b.
+Proof. unfold no_c. apply forallb_app. Qed.
+Lemma no_c_cons2 sep c s : no_c sep (c :: s) = negb (c =? sep) && no_c sep s.
+Proof. reflexivity. Qed.
+Lemma no_c_rev sep s : no_c sep (List.rev s) = no_c sep s.
+Proof.
+  induction s as [|c r IH]; [reflexivity|]. cbn [List.rev]. rewrite no_c_app2, IH, no_c_cons2.
+  cbn. rewrite andb_true_r. apply andb_comm.
+Qed.
+Lemma split1_c_none sep s : no_c sep s = true -> split1_c sep s = None.
+Proof.
+  induction s as [|c r IH]; [reflexivity|]. rewrite no_c_cons2. intros H. apply andb_true_iff in H as [Hc Hr].
+  apply negb_true_iff in Hc. cbn. rewrite Hc. now rewrite IH.
+Qed.
+Lemma split1_c_some_no sep s a b : split1_c sep s = Some (a, b) -> no_c sep a = true.
+Proof.
+  revert a b. induction s as [|c r IH]; intros a b H; cbn in H; [discriminate|].
+  destruct (c =? sep) eqn:E; [inversion H; reflexivity|].
+  destruct (split1_c sep r) as [[a' b']|] eqn:E2; [|discriminate]. inversion H; subst.
+  rewrite no_c_cons2, E. cbn. eapply IH. reflexivity.
+Qed.
+Lemma rsplit1_c_app sep a b : no_c sep b = true -> rsplit1_c sep (a ++ sep :: b) = Some (a, b).
+Proof.
+  intros H. unfold rsplit1_c. rewrite rev_app_distr. cbn [List.rev]. rewrite <- app_assoc. cbn [app].
+  rewrite (split1_c_digits sep (List.rev b) (List.rev a)) by (fold (no_c sep (List.rev b)); now rewrite no_c_rev).
+  now rewrite !rev_involutive.
+Qed.
+Lemma rsplit1_c_none sep s : no_c sep s = true -> rsplit1_c sep s = None.
+Proof. intros H. unfold rsplit1_c. rewrite split1_c_none; [reflexivity|now rewrite no_c_rev]. Qed.
+Lemma rsplit1_c_some_no sep s a b : rsplit1_c sep s = Some (a, b) -> no_c sep b = true.
+Proof.
+  unfold rsplit1_c. destruct (split1_c sep (List.rev s)) as [[x y]|] eqn:E; [|discriminate].
+  intros H. inversion H; subst. apply split1_c_some_no in E. now rewrite no_c_rev.
+Qed.
+Lemma digits_no sep s : forallb is_digit s = true -> is_digit sep = false -> no_c sep s = true.
+Proof.
+  intros H Hs. unfold no_c. rewrite forallb_forall in H. apply forallb_forall. intros x Hx.
+  apply negb_true_iff. apply N.eqb_neq. intros ->. specialize (H _ Hx). congruence.
+Qed.
+
+Lemma split1_c_none_no sep s : split1_c sep s = None -> no_c sep s = true.
+Proof.
+  induction s as [|c r IH]; [reflexivity|]. cbn [split1_c]. destruct (c =? sep) eqn:E; [discriminate|].
+  destruct (split1_c sep r) as [[? ?]|]; [discriminate|]. intros _. rewrite no_c_cons2, E. cbn [negb andb]. now apply IH.
+Qed.
+Lemma rsplit1_c_none_no sep s : rsplit1_c sep s = None -> no_c sep s = true.
+Proof.
+  unfold rsplit1_c. destruct (split1_c sep (List.rev s)) as [[x y]|] eqn:E; [discriminate|].
+  intros _. rewrite <- no_c_rev. now apply split1_c_none_no.
+Qed.
+
+(* the host part: dropping ":digits" from the text behind the last at-sign keeps the host text *)
+Lemma hostinfo_hi_drop_port hi :
+  snd (hostinfo_hi hi) <> [] -> forallb is_digit (snd (hostinfo_hi hi)) = true ->
+  exists keep, hi = keep ++ 58 :: snd (hostinfo_hi hi) /\ hostinfo_hi keep = (fst (hostinfo_hi hi), []).
+Proof.
+  intros Hne Hd. unfold hostinfo_hi in *.
+  destruct (split1_c 91 hi) as [[x bracketed]|] eqn:Eb.
+  - cbn [fst snd] in *. unfold after_first, before_first in *.
+    pose proof (split1_c_some_no _ _ _ _ Eb) as Hx. pose proof (split1_c_eq _ _ _ _ Eb) as Ehi.
+    destruct (split1_c 93 bracketed) as [[host after]|] eqn:Ec; [|cbn in Hne; congruence].
+    pose proof (split1_c_some_no _ _ _ _ Ec) as Hhost. pose proof (split1_c_eq _ _ _ _ Ec) as Ebr.
+    destruct (split1_c 58 after) as [[junk pt]|] eqn:Ed; [|cbn in Hne; congruence].
+    pose proof (split1_c_some_no _ _ _ _ Ed) as Hjunk. pose proof (split1_c_eq _ _ _ _ Ed) as Eaf.
+    exists (x ++ 91 :: host ++ 93 :: junk). split.
+    + rewrite Ehi, Ebr, Eaf. rewrite <- !app_assoc. cbn [app]. rewrite <- !app_assoc. reflexivity.
+    + rewrite (split1_c_digits 91 x (host ++ 93 :: junk) Hx).
+      rewrite (split1_c_digits 93 host junk Hhost).
+      rewrite (split1_c_none 58 junk Hjunk). reflexivity.
+  - cbn [fst snd] in *. unfold after_first, before_first in *.
+    destruct (split1_c 58 hi) as [[h pt]|] eqn:Ed; [|cbn in Hne; congruence].
+    pose proof (split1_c_some_no _ _ _ _ Ed) as Hh. pose proof (split1_c_eq _ _ _ _ Ed) as Ehi.
+    exists h. split; [exact Ehi|].
+    assert (Hb : no_c 91 h = true).
+    { apply split1_c_none_no in Eb. rewrite Ehi, no_c_app2 in Eb. now apply andb_true_iff in Eb as [? _]. }
+    rewrite (split1_c_none 91 h Hb), (split1_c_none 58 h Hh). reflexivity.
+Qed.
+
+(* the text in front of the last at-sign *)
+Definition userinfo_text (nl : pystr) : option pystr :=
+  match rsplit1_c 64 nl with Some (a, _) => Some a | None => None end.
+
+Theorem drop_port_keeps_host nl :
+  snd (hostinfo nl) <> [] -> forallb is_digit (snd (hostinfo nl)) = true ->
+  hostinfo (before_last 58 nl) = (fst (hostinfo nl), []) /\ userinfo_text (before_last 58 nl) = userinfo_text nl.
+Proof.
+  unfold hostinfo, after_last, userinfo_text. intros Hne Hd.
+  destruct (rsplit1_c 64 nl) as [[ui hi]|] eqn:E.
+  - pose proof (rsplit1_c_some_no _ _ _ _ E) as Hhi. apply rsplit1_c_eq in E.
+    destruct (hostinfo_hi_drop_port hi Hne Hd) as [keep [Ehi Hk]].
+    set (pt := snd (hostinfo_hi hi)) in *.
+    assert (Hpc : no_c 58 pt = true) by (apply digits_no; auto).
+    assert (Hkeep : no_c 64 keep = true).
+    { rewrite Ehi, no_c_app2 in Hhi. now apply andb_true_iff in Hhi as [? _]. }
+    assert (Ebl : before_last 58 nl = ui ++ 64 :: keep).
+    { unfold before_last. rewrite E, Ehi.
+      replace (ui ++ 64 :: keep ++ 58 :: pt) with ((ui ++ 64 :: keep) ++ 58 :: pt) by (rewrite <- app_assoc; reflexivity).
+      now rewrite rsplit1_c_app. }
+    rewrite Ebl, (rsplit1_c_app 64 ui keep Hkeep). split; [exact Hk|reflexivity].
+  - pose proof (rsplit1_c_none_no _ _ E) as Hnl.
+    destruct (hostinfo_hi_drop_port nl Hne Hd) as [keep [Enl Hk]].
+    set (pt := snd (hostinfo_hi nl)) in *.
+    assert (Hpc : no_c 58 pt = true) by (apply digits_no; auto).
+    assert (Hkeep : no_c 64 keep = true).
+    { rewrite Enl, no_c_app2 in Hnl. now apply andb_true_iff in Hnl as [? _]. }
+    assert (Ebl : before_last 58 nl = keep).
+    { unfold before_last. rewrite Enl at 1. now rewrite rsplit1_c_app. }
+    rewrite Ebl, (rsplit1_c_none 64 keep Hkeep). split; [exact Hk|reflexivity].
+Qed.
+
+(* consequence for the parsed URI: normalising a native loopback URI keeps host name and user information *)
+Theorem norm_native_keeps_host p p' : norm_native p = Ok p' ->
+  hostname p' = hostname p /\ userinfo_text (netloc p') = userinfo_text (netloc p).
+Proof.
+  intros H. destruct (norm_native_spec _ _ H) as (_ & _ & _ & _ & _ & [Hn|(_ & _ & z & Hz & Hnz & Hn)]).
+  - split; [now apply hostname_netloc|now rewrite Hn].
+  - unfold port in Hz.
+    destruct (snd (hostinfo (netloc p))) as [|c t] eqn:Ept; [discriminate|].
+    destruct (forallb is_digit (c :: t)) eqn:Ed; [|discriminate].
+    assert (Hne : snd (hostinfo (netloc p)) <> []) by (rewrite Ept; discriminate).
+    rewrite <- Ept in Ed.
+    destruct (drop_port_keeps_host (netloc p) Hne Ed) as [Hh Hu].
+    split; [|now rewrite Hn].
+    unfold hostname. rewrite Hn, Hh. reflexivity.
+Qed.
+
+(* native clients: host name and user information are the registered ones; only the port may differ, and
+   only as described by norm_native_spec *)
+Corollary verify_uri_sound_native regs oidc u :
+  regs <> [] -> verify_uri regs true oidc u = Ok tt ->
+  exists d p r rp,
+    unquote u = Ok d /\ urlparse d = Ok p /\ In r regs /\ parse_reg r = Ok rp /\
+    fragment p = [] /\ scheme p = scheme (fst rp) /\
+    hostname p = hostname (fst rp) /\ userinfo_text (netloc p) = userinfo_text (netloc (fst rp)) /\
+    path p = path (fst rp) /\ params p = params (fst rp) /\
+    (exists qd, parse_qs (query p) = Ok qd /\ qd_eqb qd (snd rp) = true).
+Proof.
+  intros Hne H. destruct (verify_uri_sound _ _ _ _ Hne H) as (d & p & r & rp & H1 & H2 & H3 & H4 & H5 & H6 & H7 & H8 & H9 & H10 & H11 & H12 & H13 & H14).
+  destruct H14 as (p' & r' & Hp' & Hr' & Hn).
+  destruct (norm_native_keeps_host _ _ Hp') as [A1 A2]. destruct (norm_native_keeps_host _ _ Hr') as [B1 B2].
+  exists d, p, r, rp. repeat split; auto.
+  - rewrite <- A1, <- B1. now apply hostname_netloc.
+  - rewrite <- A2, <- B2. now rewrite Hn.
+Qed.
